@@ -69,7 +69,7 @@ Theorem c09_populate_scopes_ordered_and_covering :
 Proof. exact @populate_scopes_ok. Qed.
 
 (** the keys recorded with an accepted pattern, of the algorithm (add_pattern; compared
-    exactly, order included, with every accepting state of every dump: case field [mkeys]):
+    as a set with every accepting state of every dump: case field [mkeys]):
     each key after its prerequisites, no key twice, and the pattern's own required
     bindings and every key of its constraints are among them *)
 Theorem c09_pattern_keys_ordered_and_covering :
@@ -79,13 +79,25 @@ Theorem c09_pattern_keys_ordered_and_covering :
     prereq_ordered D l /\ incl extra l /\ forall c, In c cs -> incl (cargs c) l.
 Proof. exact @pattern_keys_ok. Qed.
 
-(** together: an automaton whose recorded key lists are the ones add_pattern computes
-    gets prerequisite-first, covering scopes from populate_scopes *)
+(** together, on a dump: when the recorded key lists have the elements add_pattern computes
+    (field [mkeys]) they contain the pattern's own required bindings and every key of its
+    constraints; when they are prerequisite-first (a clause of wf_check), populate_scopes
+    yields prerequisite-first, covering scopes *)
+Theorem c09_recorded_keys_cover_the_pattern :
+  forall (K V M H P : Type) (D : DomOps K V M H P), DomEq D -> acyclic (req D) ->
+  forall (fuel : nat) (A : automaton K P) (pats : list (option (list K * list (constraint K P)))),
+    match_key_mismatches D fuel A pats = [] ->
+    forall s pk, In s (au_states A) -> In pk (a_matches s) ->
+      exists extra cs l, nth_error pats (N.to_nat (fst pk)) = Some (Some (extra, cs))
+        /\ pattern_keys D fuel extra cs = Ok l
+        /\ incl l (snd pk) /\ incl (snd pk) l
+        /\ incl extra (snd pk) /\ forall c, In c cs -> incl (cargs c) (snd pk).
+Proof. exact @match_keys_cover. Qed.
+
 Theorem c09_scopes_after_add_pattern :
   forall (K V M H P : Type) (D : DomOps K V M H P), DomEq D -> acyclic (req D) ->
-  forall (fuel fuel' : nat) (A : automaton K P) (pats : list (option (list K * list (constraint K P))))
-         (order : list N) (sc : list (N * list K)),
-    match_key_mismatches D fuel' A pats = [] ->
+  forall (fuel : nat) (A : automaton K P) (order : list N) (sc : list (N * list K)),
+    (forall s pk, In s (au_states A) -> In pk (a_matches s) -> prereq_orderedb D [] (snd pk) = true) ->
     populate_scopes D fuel A order = Ok sc ->
     Forall2 (fun (s : astate K P) (entry : N * list K) =>
                fst entry = a_id s
@@ -93,7 +105,10 @@ Theorem c09_scopes_after_add_pattern :
                /\ exists cts, cons_transitions s = Ok cts
                     /\ forall c t, In (c, t) cts -> incl (cargs c) (snd entry))
             (au_states A) sc.
-Proof. exact @populate_scopes_after_add_pattern. Qed.
+Proof.
+  intros K V M H P D HD Hac fuel A order sc Hb. apply (populate_scopes_ok D HD Hac A).
+  intros s pk Hs Hpk. apply (prereq_orderedb_ok D HD). exact (Hb s pk Hs Hpk).
+Qed.
 
 (** on the example automaton the algorithm returns, and returns the recorded scopes *)
 Example c09_example_scopes :
@@ -113,3 +128,4 @@ Print Assumptions c09_clauses.
 Print Assumptions c09_populate_scopes_ordered_and_covering.
 Print Assumptions c09_pattern_keys_ordered_and_covering.
 Print Assumptions c09_scopes_after_add_pattern.
+Print Assumptions c09_recorded_keys_cover_the_pattern.
